@@ -159,6 +159,8 @@ impl Db {
             Index::create_in_ram(schema)
         } else {
             let (index_rebuild, index) = open_index(&config)?;
+            #[cfg(feature = "verif")]
+            crate::verif::crash_point(5);
             rebuild = rebuild || index_rebuild;
             index
         };
@@ -201,7 +203,11 @@ impl Db {
             // it which of several equally good matches wins, the same in
             // every build.
             let mut writer = db.index.writer_with_num_threads(1, 50_000_000)?;
+            #[cfg(feature = "verif")]
+            crate::verif::crash_point(6);
             writer.delete_all_documents()?;
+            #[cfg(feature = "verif")]
+            crate::verif::crash_point(7);
 
             for name in config.assets() {
                 if name == SOURCES_BIN_GZ {
@@ -214,7 +220,11 @@ impl Db {
                 }
             }
 
+            #[cfg(feature = "verif")]
+            crate::verif::crash_point(8);
             writer.commit()?;
+            #[cfg(feature = "verif")]
+            crate::verif::crash_point(9);
             db.reader.reload()?;
 
             config.meta.version = Some(config.this_version.to_owned());
@@ -222,6 +232,8 @@ impl Db {
 
             if !in_memory {
                 config.write_meta()?;
+                #[cfg(feature = "verif")]
+                crate::verif::crash_point(10);
             }
         }
 
@@ -315,14 +327,22 @@ fn open_index(config: &crate::config::Config) -> Result<(bool, Index)> {
 
     // The index is about to be replaced by an empty one, which must not be
     // mistaken for a complete one if we are interrupted before it is filled.
+    #[cfg(feature = "verif")]
+    crate::verif::crash_point(1);
     config.remove_meta()?;
+    #[cfg(feature = "verif")]
+    crate::verif::crash_point(2);
 
     if config.index_path.is_dir() {
         log::info!("removing index: {}", config.index_path.display());
         fs::remove_dir_all(&config.index_path)?;
     }
 
+    #[cfg(feature = "verif")]
+    crate::verif::crash_point(3);
     fs::create_dir_all(&config.index_path)?;
+    #[cfg(feature = "verif")]
+    crate::verif::crash_point(4);
     let schema = build_schema();
     Ok((true, Index::create_in_dir(&config.index_path, schema)?))
 }
